@@ -4,6 +4,7 @@ CONSTANTS
   Socks = {"ldl1", "ldl2", "ldl3", "ldl4", "dlc1", "dlc2", "dlc2c", "dlc3", "dlc4", "dlc5", "dlc6", "sd", "fresh"}
   AtomicCheck = TRUE
   DeadBind = FALSE
+  DeadAdopt = FALSE
   MaxDeliver = 1000000
 CONSTRAINT Done
 CHECK_DEADLOCK FALSE
